@@ -18,7 +18,8 @@ RULE = ("(a) random pairs of consistently typed feature structures (atomic featu
         "obtained by instantiating the variables over the domain; returned parse trees are checked against the "
         "underlying CFG. Non-trivial: structures with >=3 leaves / grammars with >=3 productions.")
 LEVEL = "proof"
-THEOREMS = ["Pfl.FsDag.unifySFS_ok",
+THEOREMS = ["Pfl.Earley.earley_sound",
+            "Pfl.FsDag.unifySFS_ok",
             "Pfl.FsDag.unifySFS_conflict",
             "Pfl.FsDag.unifySFS_terminates",
             "Pfl.FS.unify_none_iff",
